@@ -521,6 +521,31 @@ def real_download(plan):
             if plan.get('restart'):
                 request.restart_value = plan['restart']
             out = io.BytesIO()
+            if plan.get('prior_abort') and not plan['listing']:
+                # an earlier fetch on the same client that is abandoned after RETR was sent (a listener raises at
+                # begin_transfer, or the task is cancelled while the reply is read): whatever replies it leaves owed
+                # must not be taken for answers to the commands of the next session
+                from wpull.protocol.ftp.client import Session as _S
+                first = client.session()
+                try:
+                    with first:
+                        if plan['prior_abort'] == 'listener':
+                            def boom(*a, **k):
+                                raise OSError(28, 'listener failed')
+                            first.event_dispatcher.add_listener(_S.Event.begin_transfer, boom)
+                            await compat._ensure(first.start(Request('ftp://h/dir/other.bin')))
+                        else:
+                            t = asyncio.ensure_future(compat._ensure(first.start(Request('ftp://h/dir/other.bin'))))
+                            for _ in range(plan.get('cancel_after', 12)):
+                                await asyncio.sleep(0)
+                            t.cancel()
+                            try:
+                                await t
+                            except BaseException:
+                                pass
+                            raise asyncio.CancelledError()
+                except BaseException:
+                    pass
             session = client.session()
             with session:
                 async def run_it():
@@ -567,6 +592,7 @@ def stream_download(ctx, n):
                       'pre': rng.choice([b'150 here\r\n', b'150 here\r\n', b'125 already open\r\n', b'150-a\r\n150 b\r\n']),
                       'closing': fakenet.segment(closing, fakenet.random_cuts(rng, len(closing))),
                       'glue': rng.random() < 0.4, 'yields': rng.choice([0, 1, 3]),
+                      'prior_abort': rng.choice([None, None, 'listener', 'cancel']), 'cancel_after': rng.choice([6, 9, 12, 15, 20]),
                       'restart': rng.choice([None, None, 3])})
     reqs = ['ftp transfer %s %s %s' % (enc_segs(p['dsegs']), 'R' if p['end'] == 'reset' else 'T' if p['end'] else 'F', enc_segs(p['closing'])) for p in plans]
     replies = ctx.model.ask(reqs)
@@ -583,6 +609,13 @@ def stream_download(ctx, n):
             real = 'complete %s %s' % ('-' if p['listing'] else enc(res[1]), res[2])
         else:
             real = res[0] if res[0] != 'exc' else 'exc ' + res[1]
+        if p.get('prior_abort') and not p['listing']:
+            # independent of the model: what an abandoned earlier fetch left behind must not change this one
+            alone = real_download(dict(p, prior_abort=None))
+            if alone != res:
+                ctx.fail('reply-of-another-command', 'Session.abort', case,
+                         'after an abandoned fetch (%s) on the same client this fetch ended as %r; on its own it ends as %r'
+                         % (p['prior_abort'], res[:1] + res[2:], alone[:1] + alone[2:]))
         # the model's verdict for the same data stream / ending / closing-reply bytes
         if rep.startswith('complete'):
             parts = rep.split(' ')
@@ -645,6 +678,10 @@ def replay(ctx, case, kind=None, where=None):
         whole = b''.join(case['closing']).split(b'\n')[:-1]
         if res[0] == 'complete' and (case['end'] is not True or res[2] != 226 or not any(l.startswith(b'226 ') for l in whole)):
             ctx.fail('premature-complete', 'Session.download', case, 'session reported a completed transfer: data end=%s reply %s' % (case['end'], res[2]))
+        if case.get('prior_abort') and not case['listing']:
+            alone = real_download(dict(case, prior_abort=None))
+            if alone != res:
+                ctx.fail('reply-of-another-command', 'Session.abort', case, 'with the abandoned earlier fetch: %r; alone: %r' % (res[:1] + res[2:], alone[:1] + alone[2:]))
     elif s == 'transfer':
         stream_transfer(ctx, [(case['data'], case['eof'], case['ctrl'])])
     else:
